@@ -91,6 +91,16 @@ def fill(r, templ, nwords, wrap, expect):
     return out
 
 
+def adjust(doc):
+    """make sure the extraction list names at least one macro of the document (when there is one)"""
+    items, names, pack = doc
+    names = list(names)
+    ls = [it[1][1] for it in items if it[0] == 'L']
+    if ls and not any(n in names for n in ls):
+        names.append(ls[len(items) % len(ls)])
+    return items, names, pack
+
+
 def render(doc):
     items, names, pack = doc
     r = R()
@@ -138,6 +148,7 @@ def render(doc):
 
 
 def check(doc):
+    doc = adjust(doc)
     items, names, pack = doc
     r, expected, feats = render(doc)
     src = r.src + '\n'
@@ -179,7 +190,7 @@ def run_shard(ctx):
     def one(doc):
         src, nt, feats, n = check(doc)
         ctx.stats.case(key=(src, doc[1]), nontrivial=nt, classes=['extraction'] + sorted('extraction:' + f for f in feats),
-                       sample={'src': src, 'extr': doc[1], 'pack': doc[2]})
+                       sample={'src': src, 'extr': adjust(doc)[1], 'pack': doc[2]})
     hyp_run(ctx, doc_s, one, ctx.n(30000, 600000))
     try:
         from props import c18_include
